@@ -406,6 +406,42 @@ pub fn run_c16_case(p: &Program, cfg: &Config, rng: &mut crate::rng::Rng) -> Cas
     if let Some((it, tids)) = &t.bad_tids {
         rep.violations.push(viol("isolation", format!("iteration {}: thread ids do not restart at the main thread: {:?}", it, tids), json!({})));
     }
+    // ---- (1b) every iteration starts from the same initial state: re-running the tail of the
+    // exploration from a checkpoint in a brand-new execution (fresh clocks, objects, threads) must
+    // visit exactly what the continuous run visited - state that leaks from one iteration into the
+    // next makes the two differ
+    let mut fresh_replays = 0u64;
+    if rep.violations.is_empty() && matches!(r.status, LoomStatus::Completed) && r.iterations >= 2 && r.iterations <= 150 {
+        let file = scratch_file("iso");
+        let fs = file.to_string_lossy().to_string();
+        let n = r.iterations;
+        let mut ks: Vec<usize> = (0..6).map(|_| rng.range(2, n)).collect();
+        ks.sort();
+        ks.dedup();
+        for k in ks {
+            let _ = std::fs::remove_file(&file);
+            let mut ca = cfg.clone();
+            ca.checkpoint_file = Some(fs.clone());
+            ca.checkpoint_interval = 1;
+            ca.max_permutations = Some(k);
+            let _ = trace_run(p, &ca);
+            let mut cb = ca.clone();
+            cb.max_permutations = None;
+            let (rb, tb) = trace_run(p, &cb);
+            fresh_replays += 1;
+            if !matches!(rb.status, LoomStatus::Completed) || tb.iter_hashes[..] != t.iter_hashes[k - 1..] {
+                let first = tb.iter_hashes.iter().zip(t.iter_hashes[k - 1..].iter()).position(|(a, b)| a != b);
+                rep.violations.push(viol(
+                    "isolation",
+                    format!("iterations {}..{} re-run in a fresh execution (from the checkpoint of iteration {}) differ from the continuous run: {} vs {} iterations, first difference at offset {:?} - state of earlier iterations leaked", k, n, k, rb.iterations, n - k + 1, first),
+                    json!({"k": k}),
+                ));
+                break;
+            }
+        }
+        let _ = std::fs::remove_file(&file);
+    }
+    rep.extra.insert("fault_fresh_execution_replays".into(), fresh_replays);
     // ---- (2) concurrently with 1-2 other OS threads running models, interleaved by the turnstile
     if rep.violations.is_empty() && !rep.too_large && r.iterations <= 400 {
         let n_other = rng.range(1, 2);
@@ -548,6 +584,20 @@ pub fn run_c19_case(p: &Program, cfg: &Config, rng: &mut crate::rng::Rng) -> Cas
             q.threads[tt].insert(*at, op.clone());
         }
         let shifts: Vec<usize> = ins.iter().map(|x| x.0).collect();
+        // a skip_branch() that only some iterations execute (conditional on a value read by
+        // another thread), combined with a region: what one iteration skips must not change how
+        // the controls behave in later iterations
+        if kind == 1 && rng.chance(1, 2) {
+            let cands: Vec<(usize, usize)> = (0..q.n_threads())
+                .filter(|&u| u != tt)
+                .flat_map(|u| q.threads[u].iter().enumerate().filter(|(_, o)| matches!(o, Op::Load { .. })).map(move |(i, _)| (u, i)))
+                .collect();
+            if !cands.is_empty() {
+                let (u, li) = *rng.pick(&cands);
+                let eq = if let Op::Load { a, .. } = q.threads[u][li] { q.atomics[a as usize] } else { 0 };
+                q.threads[u].push(Op::If { pc: li as u8, eq, then: Box::new(Op::SkipBranch) });
+            }
+        }
         // main's spawns must stay first so that thread bodies exist: only valid if the inserted op
         // did not move a Spawn behind a Join; inserting ops never reorders, fine.
         let (r, t1) = trace_run_opt(&q, &qc, true);
@@ -582,6 +632,25 @@ pub fn run_c19_case(p: &Program, cfg: &Config, rng: &mut crate::rng::Rng) -> Cas
             rep.violations.push(viol("controls", format!("expect_explicit_explore with explore() as the first call should equal the default: {} vs {} iterations", r.iterations, n), json!({"program": q.text()})));
         }
         for (k, path) in t1.paths.iter().enumerate() {
+            // every operation with a scheduling point that is invoked while exploration is switched
+            // off creates at least one branch that is marked as not explorable
+            let need = branching_invokes_while_off(&q, &t1.histories[k], qc.expect_explicit_explore);
+            let have = path
+                .iter()
+                .filter(|b| match b {
+                    loom::verif::Branch::Schedule { exploring, .. } => !*exploring,
+                    loom::verif::Branch::Load { exploring, .. } => !*exploring,
+                    loom::verif::Branch::Spurious { exploring, .. } => !*exploring,
+                })
+                .count();
+            if have < need {
+                rep.violations.push(viol(
+                    "controls",
+                    format!("iteration {}: {} operations with a scheduling point ran between stop_exploring()/skip_branch() and explore(), but only {} branches are marked as not explorable - the region was not honoured", k + 1, need, have),
+                    json!({"program": q.text(), "history": history_text(&t1.histories[k]), "path": path_text(path)}),
+                ));
+                break;
+            }
             if let Some(b) = unexplorable_branch_advanced(path) {
                 rep.violations.push(viol("controls", format!("iteration {}: branch {} was created with exploration disabled but an alternative of it was explored", k + 1, b), json!({"program": q.text(), "path": path_text(path)})));
                 break;
@@ -614,6 +683,55 @@ pub fn run_c19_case(p: &Program, cfg: &Config, rng: &mut crate::rng::Rng) -> Cas
             break;
         }
     }
+
+    // ---- (a') decisions OUTSIDE a region are still fully explored: put a region around a
+    // stretch of stores of one thread (its effect is deterministic: no preemption inside, nothing
+    // is read inside) and demand every outcome of the reference in which that stretch is atomic
+    let mut completeness_runs = 0u64;
+    if rep.violations.is_empty() {
+        let mut spots: Vec<(usize, usize, usize)> = Vec::new();
+        for (t, ops) in p.threads.iter().enumerate() {
+            let mut i = 0;
+            while i < ops.len() {
+                if matches!(ops[i], Op::Store { .. }) {
+                    let mut j = i;
+                    while j < ops.len() && matches!(ops[j], Op::Store { .. } | Op::Fence { .. }) {
+                        j += 1;
+                    }
+                    spots.push((t, i, j));
+                    i = j;
+                } else {
+                    i += 1;
+                }
+            }
+        }
+        let has_if = p.threads.iter().flatten().any(|o| matches!(o, Op::If { .. }));
+        if !spots.is_empty() && !has_if && !crate::checks::has_try_acquire(p) && !crate::checks::has_unpark_order_sensitivity(p) && !crate::checks::has_yield(p) {
+            let (t, i, j) = *rng.pick(&spots);
+            let mut q = p.clone();
+            q.threads[t].insert(j, Op::Explore);
+            q.threads[t].insert(i, Op::StopExploring);
+            let (r, t1) = trace_run(&q, cfg);
+            completeness_runs += 1;
+            if matches!(r.status, LoomStatus::Completed) {
+                let mut mc = MachineCfg::must();
+                mc.sc_atomics = true;
+                mc.regions_atomic = true;
+                let ws = crate::oracle::must_walks(&q, &mc, rng, 64, 512);
+                for (out, sched) in &ws.outcomes {
+                    if !t1.outcome_set.contains(out) {
+                        rep.violations.push(viol(
+                            "controls",
+                            format!("a region around stores only: outcome [{}] needs no alternative inside the region (reference schedule attached) but none of the {} iterations produced it - decisions outside the region are not fully explored", out, r.iterations),
+                            json!({"program": q.text(), "ref_schedule": sched, "loom_outcomes": t1.outcome_set.iter().collect::<Vec<_>>()}),
+                        ));
+                        break;
+                    }
+                }
+            }
+        }
+    }
+    rep.extra.insert("fault_region_completeness_runs".into(), completeness_runs);
 
     // ---- (b) limits
     if rep.violations.is_empty() && n >= 1 {
@@ -685,6 +803,10 @@ pub fn run_c19_case(p: &Program, cfg: &Config, rng: &mut crate::rng::Rng) -> Cas
             let mut c = cfg.clone();
             c.checkpoint_interval = interval;
             c.max_duration_ms = Some(limit_ms);
+            // both limits may be configured at once; the permutation budget here is never reached
+            if rng.chance(1, 2) {
+                c.max_permutations = Some(n + 100);
+            }
             // run with a per-iteration clock advance
             let adv = advances.clone();
             let clk = clock.clone();
@@ -725,6 +847,83 @@ pub fn run_c19_case(p: &Program, cfg: &Config, rng: &mut crate::rng::Rng) -> Cas
     rep.extra.insert("simulated_clock_ms".into(), sim_clock_ms);
     rep.sample = Some(json!({"program": rep.program, "iterations": n, "outcomes": t0.outcome_set.iter().take(6).collect::<Vec<_>>()}));
     rep
+}
+
+/// Number of ops with a scheduling point invoked while the (global) exploring flag is off.
+fn branching_invokes_while_off(p: &Program, h: &[HEv], starts_off: bool) -> usize {
+    let mut off = starts_off;
+    let mut skipping = false;
+    let mut n = 0;
+    for e in h {
+        let op = &p.threads[e.tid as usize][e.pc as usize];
+        let mut o = op;
+        let mut taken = true;
+        // an If whose condition is false does nothing; we cannot see the condition from the Inv
+        // event, so conditional ops are only counted as control ops when they return
+        while let Op::If { then, .. } = o {
+            o = then;
+            taken = false;
+        }
+        match e.kind {
+            HK::Ret => {
+                if !taken {
+                    // conditional op: executed iff the referenced result equals eq
+                    if let Op::If { pc, eq, .. } = op {
+                        let cond = h.iter().any(|x| x.kind == HK::Ret && x.tid == e.tid && x.pc == *pc as u16 && x.res == Some(*eq));
+                        if !cond {
+                            continue;
+                        }
+                    }
+                }
+                match o {
+                    Op::StopExploring => {
+                        if !skipping {
+                            off = true
+                        }
+                    }
+                    Op::Explore => {
+                        if !skipping {
+                            off = false
+                        }
+                    }
+                    Op::SkipBranch => {
+                        off = true;
+                        skipping = true;
+                    }
+                    _ => {}
+                }
+            }
+            HK::Inv => {
+                if off && taken && has_branch_point(o) {
+                    n += 1;
+                }
+            }
+            _ => {}
+        }
+    }
+    n
+}
+
+fn has_branch_point(o: &Op) -> bool {
+    matches!(
+        o,
+        Op::Load { .. }
+            | Op::Store { .. }
+            | Op::Swap { .. }
+            | Op::FetchAdd { .. }
+            | Op::Cas { .. }
+            | Op::Lock { .. }
+            | Op::TryLock { .. }
+            | Op::RLock { .. }
+            | Op::WLock { .. }
+            | Op::TryRLock { .. }
+            | Op::TryWLock { .. }
+            | Op::CvOne { .. }
+            | Op::CvAll { .. }
+            | Op::NNotify { .. }
+            | Op::Send { .. }
+            | Op::Yield
+    )
 }
 
 /// Map an outcome of the program with inserted control ops back to the original pcs.
